@@ -152,7 +152,8 @@ class FluxContract:
         a1, a2 = self.last["args_at"](f1), self.last["args_at"](f2)
         same = z3.And(*[x == y for x, y in zip(a1, a2)])
         for g in self.last["G"]:
-            cur().add_fact(z3.Implies(same, T.treal(g.at(f1)) == T.treal(g.at(f2))))
+            g1 = T.treal(g.at(f1))
+            cur().add_fact(z3.Implies(same, g1 == T.treal(g.at(f2))), trigger=g1)
         return same
 
     def instance_consistency(self, f, at_state=None):
@@ -164,12 +165,14 @@ class FluxContract:
             phys = C.physical_flux(self.kind, W, self.info, nrm)
             same = z3.And(*([x == w for x, w in zip(WL, W)] + [y == w for y, w in zip(WR, W)]))
             for k, g in enumerate(self.last["G"]):
-                cur().add_fact(z3.Implies(same, T.treal(g.at(f)) == phys[k]))
+                gf = T.treal(g.at(f))
+                cur().add_fact(z3.Implies(same, gf == phys[k]), trigger=gf)
             return same
         phys = C.physical_flux(self.kind, WL, self.info, nrm)
         same = z3.And(*[x == y for x, y in zip(WL, WR)])
         for k, g in enumerate(self.last["G"]):
-            cur().add_fact(z3.Implies(same, T.treal(g.at(f)) == phys[k]))
+            gf = T.treal(g.at(f))
+            cur().add_fact(z3.Implies(same, gf == phys[k]), trigger=gf)
         return same
 
     def instance_mirror(self, rec1, rec2, f2, f1):
@@ -194,7 +197,8 @@ class FluxContract:
         rel = z3.And(*rel) if rel else z3.BoolVal(True)
         par = C.parity(kind)
         for k, (g1, g2) in enumerate(zip(rec1["G"], rec2["G"])):
-            cur().add_fact(z3.Implies(rel, T.treal(g2.at(f2)) == par[k] * T.treal(g1.at(f1))))
+            gf = T.treal(g2.at(f2))
+            cur().add_fact(z3.Implies(rel, gf == par[k] * T.treal(g1.at(f1))), trigger=gf)
         return rel
 
     def instance_wall(self, f, interior="L"):
@@ -212,7 +216,8 @@ class FluxContract:
         G = self.last["G"]
         ks = [0] if self.kind == "shallowwater" else [0, len(G) - 1]
         for k in ks:
-            cur().add_fact(z3.Implies(rel, T.treal(G[k].at(f)) == 0))
+            gf = T.treal(G[k].at(f))
+            cur().add_fact(z3.Implies(rel, gf == 0), trigger=gf)
         return rel
 
 
